@@ -1,7 +1,7 @@
 (* Dispatcher: one wire line = a list of cases [model_id; payload]. *)
 From Coq Require Import ZArith List Bool.
 From OV Require Import Base.Wire.
-From OV Require Model.NamedList Model.IsoTp Model.CodecWire Model.Compu Model.Dispatch Model.Inherit Model.Variant Model.Compare Model.Links Model.Xml.
+From OV Require Model.NamedList Model.IsoTp Model.CodecWire Model.Compu Model.Dispatch Model.Inherit Model.Variant Model.Compare Model.CompareParams Model.Links Model.Xml.
 Import ListNotations.
 Open Scope Z_scope.
 
@@ -18,6 +18,7 @@ Definition run_case (t : tok) : tok :=
   else if m =? 9 then Inherit.run_case p
   else if m =? 14 then Variant.run_case p
   else if m =? 18 then Compare.run_case p
+  else if m =? 118 then CompareParams.run_case p
   else if m =? 10 then Links.run_case p
   else if m =? 11 then Xml.run_case p
   else TL [TZ (-999)].
